@@ -171,7 +171,10 @@ def ps_variants(m):
     p.add(0, (0, 1))
     first = lw.State([1] + [0] * (m - 1))
     # "fn-state": a predicate written for State objects, as documented ("takes a single argument, expected to be a State object")
-    return [("none", None), ("rule", p), ("fn", lambda s: s[m - 1] <= 1), ("fn-state", lambda s: isinstance(s, lw.State) and s != first and s.n_photons >= 0)]
+    import numpy as np
+    # "fn-numpy": a predicate whose result is a numpy boolean (np.sum(...) <= 1, np.all(...)); "fn-int": a truthy / falsy integer
+    return [("none", None), ("rule", p), ("fn", lambda s: s[m - 1] <= 1), ("fn-state", lambda s: isinstance(s, lw.State) and s != first and s.n_photons >= 0),
+            ("fn-numpy", lambda s: np.sum(np.array(list(s))[: max(m - 1, 1)]) <= 1), ("fn-int", lambda s: 1 if s[0] <= 1 else 0)]
 
 
 def ps_ok(ps, s):
